@@ -19,8 +19,9 @@
          ty    type mnemonic;  tg  = type spelled TYPEnnn;  gen = rdata spelled \# len hex
          names tuple of name references embedded in the rdata (in order of appearance)
          data  tuple of integers: every other field of the rdata
-         lay   "single" | "paren" | "parenc"   (one line / parenthesised over several
-               lines / the same with comments inside the parentheses)
+         lay   "single" | "paren" | "parenc" | "paren0"  (one line / parenthesised over several
+               lines / the same with comments inside the parentheses / continuation text and
+               the closing parenthesis at column 0)
      [k |-> "origin", name]            $ORIGIN
      [k |-> "ttl", v]                  $TTL
      [k |-> "blank", form]             empty line / white space / comment
